@@ -563,3 +563,218 @@ def return_dependences(fn: FuncInfo):
             elif isinstance(s, ast.Return):
                 out.append((s, sources(s.value)))
     return out
+
+
+NONZERO_FAMILY = {'np.nonzero', 'np.flatnonzero', 'numpy.nonzero', 'numpy.flatnonzero'}
+
+
+def _nonzero_mask(e: ast.AST) -> Optional[ast.AST]:
+    """m when e is np.nonzero(m) / np.flatnonzero(m) / np.where(m) / np.nonzero(m)[0] / m.nonzero()."""
+    if isinstance(e, ast.Subscript) and const_value(e.slice) == 0:
+        inner = _nonzero_mask(e.value)
+        if inner is not None and isinstance(e.value, ast.Call) and norm(e.value.func) not in ('np.flatnonzero', 'numpy.flatnonzero'):
+            return inner
+    if isinstance(e, ast.Call) and not e.keywords:
+        f = norm(e.func)
+        if f in NONZERO_FAMILY and len(e.args) == 1:
+            return e.args[0]
+        if f in ('np.where', 'numpy.where', 'np.argwhere') and len(e.args) == 1:
+            return e.args[0]
+        if isinstance(e.func, ast.Attribute) and e.func.attr == 'nonzero' and not e.args:
+            return e.func.value
+    return None
+
+
+class GatherCanon(ast.NodeTransformer):
+    """Reduces equivalent spellings of a gather to plain subscripts (see canon_gather)."""
+
+    def visit_Call(self, n):
+        self.generic_visit(n)
+        f = norm(n.func)
+        a = i = None
+        axis = None
+        if f in ('np.take', 'numpy.take') and len(n.args) >= 2:
+            a, i = n.args[0], n.args[1]
+            axis = n.args[2] if len(n.args) > 2 else next((k.value for k in n.keywords if k.arg == 'axis'), None)
+        elif isinstance(n.func, ast.Attribute) and n.func.attr == 'take' and n.args and f not in ('np.take', 'numpy.take'):
+            a, i = n.func.value, n.args[0]
+            axis = n.args[1] if len(n.args) > 1 else next((k.value for k in n.keywords if k.arg == 'axis'), None)
+        if a is None or any(k.arg not in ('axis',) for k in n.keywords):
+            return n
+        ax = const_value(axis) if axis is not None else None
+        if axis is None or ax == 0:
+            sl = i
+        elif ax == 1:
+            sl = ast.Tuple(elts=[ast.Slice(lower=None, upper=None, step=None), i], ctx=ast.Load())
+        elif ax == -1:
+            sl = ast.Tuple(elts=[ast.Constant(value=Ellipsis), i], ctx=ast.Load())
+        else:
+            return n
+        return self.visit_Subscript(ast.copy_location(ast.Subscript(value=a, slice=sl, ctx=ast.Load()), n), visited=True)
+
+    @staticmethod
+    def _arange_slice(base: ast.AST, idx: ast.AST, axis: int) -> Optional[ast.AST]:
+        """s when idx is np.arange(<base>.shape[axis])[s] / np.arange(len(<base>))[s]: indexing with a slice of the identity."""
+        if isinstance(idx, ast.Subscript) and isinstance(idx.slice, ast.Slice) and isinstance(idx.value, ast.Call) \
+                and norm(idx.value.func) in ('np.arange', 'numpy.arange', 'range') and len(idx.value.args) == 1:
+            n = norm(idx.value.args[0]).replace(' ', '')
+            b = norm(base).replace(' ', '')
+            if n == '%s.shape[%d]' % (b, axis) or (axis == 0 and n in ('len(%s)' % b, '%s.size' % b)) or (axis == -1 and n == '%s.shape[-1]' % b):
+                return idx.slice
+        return None
+
+    def visit_Subscript(self, n, visited=False):
+        if not visited:
+            self.generic_visit(n)
+        sl = n.slice
+        m = _nonzero_mask(sl)
+        if m is not None:
+            n.slice = m
+            return n
+        # x[np.arange(k)] / x[np.arange(0, k)]  ->  x[:k]   (the same elements; only the first axis form)
+        if isinstance(sl, ast.Call) and norm(sl.func) in ('np.arange', 'numpy.arange') and not sl.keywords and 1 <= len(sl.args) <= 2:
+            lo = sl.args[0] if len(sl.args) == 2 else None
+            if lo is not None and const_value(lo) == 0:
+                lo = None
+            n.slice = ast.Slice(lower=lo, upper=sl.args[-1], step=None)
+            return n
+        if isinstance(sl, ast.Subscript):
+            m = _nonzero_mask(sl.value)
+            if m is not None:
+                inner = ast.copy_location(ast.Subscript(value=n.value, slice=m, ctx=ast.Load()), n)
+                return ast.copy_location(ast.Subscript(value=inner, slice=sl.slice, ctx=n.ctx), n)
+            s0 = self._arange_slice(n.value, sl, 0)
+            if s0 is not None:
+                n.slice = s0
+                return n
+        if isinstance(sl, ast.Tuple) and len(sl.elts) == 2 and isinstance(sl.elts[0], ast.Slice) and sl.elts[0].lower is None \
+                and sl.elts[0].upper is None and sl.elts[0].step is None:
+            s1 = self._arange_slice(n.value, sl.elts[1], 1)
+            if s1 is not None:
+                sl.elts[1] = s1
+        return n
+
+
+def canon_gather(e: ast.AST) -> ast.AST:
+    """A copy of e in which equivalent spellings of a gather are reduced to plain subscripts:
+         np.take(a, i) / np.take(a, i, axis=0) / a.take(i)      ->  a[i]          (axis=1: a[:, i];  axis=-1: a[..., i])
+         a[np.nonzero(m)] / a[np.flatnonzero(m)] / a[np.where(m)] ->  a[m]
+         a[np.flatnonzero(m)[k]]                                  ->  a[m][k]
+         a[np.arange(a.shape[0])[s]]                              ->  a[s]          (and the axis-1 form)
+         a[np.arange(k)] / a[np.arange(0, k)]                     ->  a[:k]
+       (the flat `take` without axis equals a[i] for the 1-D tables it is used on here; see DESIGN 10.3)."""
+    import copy as _copy
+    out = GatherCanon().visit(_copy.deepcopy(e))
+    ast.fix_missing_locations(out)
+    return out
+
+
+def _full_range(e: ast.AST) -> Optional[str]:
+    """N (normalised text) when e is range(N) / range(0, N) / np.arange(N) / np.arange(0, N) / list(range(N)) / np.r_[0:N]."""
+    if isinstance(e, ast.Call) and norm(e.func) in ('list', 'tuple', 'sorted', 'np.array', 'np.asarray', 'set', 'frozenset') and len(e.args) == 1 and not e.keywords:
+        return _full_range(e.args[0])
+    if isinstance(e, ast.Call) and norm(e.func) in ('range', 'np.arange', 'numpy.arange') and not e.keywords:
+        if len(e.args) == 1:
+            return norm(e.args[0]).replace(' ', '')
+        if len(e.args) == 2 and const_value(e.args[0]) == 0:
+            return norm(e.args[1]).replace(' ', '')
+    if isinstance(e, ast.Subscript) and norm(e.value) in ('np.r_', 'numpy.r_') and isinstance(e.slice, ast.Slice) and e.slice.step is None \
+            and (e.slice.lower is None or const_value(e.slice.lower) == 0) and e.slice.upper is not None:
+        return norm(e.slice.upper).replace(' ', '')
+    return None
+
+
+def all_but_one(e: ast.AST, ex=None):
+    """Does e denote the index set {0..N-1} minus {k}?   ('ok', N, k)  |  ('bad', why)  |  None (form not recognised).
+
+    Recognised spellings (ex: optional expander for named pieces):
+      [v for v in R if v != k]  (also `k != v`, `not v == k`, `v not in {k}` / `(k,)` / `[k]`; list / set / generator)
+      set(R) - {k}, set(R).difference({k}), optionally wrapped in sorted()/list()
+      np.flatnonzero(R != k), np.nonzero(R != k)[0], np.where(R != k)[0], R[R != k]
+      np.delete(R, k), np.setdiff1d(R, [k])
+    with R = range(N) / np.arange(N) / np.arange(0, N) / np.r_[0:N].  A recognised spelling whose test is not "different
+    from k" (==, <, >, in) or whose range does not start at 0 is 'bad'."""
+    ex = ex or (lambda x: x)
+    e = ex(e)
+    while isinstance(e, ast.Call) and norm(e.func) in ('list', 'sorted', 'tuple', 'np.array', 'np.asarray', 'np.sort') and len(e.args) == 1 and not e.keywords:
+        e = ex(e.args[0])
+
+    def excluded(test, v: str):
+        """k when test says `v differs from k`; 'BAD:<why>' when it is another comparison of v; None otherwise."""
+        neg = False
+        while isinstance(test, ast.UnaryOp) and isinstance(test.op, ast.Not):
+            neg = not neg
+            test = test.operand
+        if not (isinstance(test, ast.Compare) and len(test.ops) == 1):
+            return None
+        a, op, b = test.left, test.ops[0], test.comparators[0]
+        na, nb = norm(a).replace(' ', ''), norm(b).replace(' ', '')
+        if isinstance(op, (ast.NotEq, ast.Eq)):
+            other = nb if na == v else na if nb == v else None
+            if other is None:
+                return None
+            want_ne = isinstance(op, ast.NotEq) != neg
+            return other if want_ne else 'BAD:keeps only the element equal to %s' % other
+        if isinstance(op, (ast.NotIn, ast.In)) and na == v and isinstance(b, (ast.Set, ast.Tuple, ast.List)) and len(b.elts) == 1:
+            want_ne = isinstance(op, ast.NotIn) != neg
+            other = norm(b.elts[0]).replace(' ', '')
+            return other if want_ne else 'BAD:keeps only the element equal to %s' % other
+        if isinstance(op, (ast.Lt, ast.Gt, ast.LtE, ast.GtE)) and v in (na, nb):
+            return 'BAD:selects by order (%s), not by difference' % norm(test)
+        return None
+
+    if isinstance(e, (ast.ListComp, ast.SetComp, ast.GeneratorExp)) and len(e.generators) == 1:
+        g = e.generators[0]
+        if isinstance(g.target, ast.Name) and norm(e.elt) == g.target.id and len(g.ifs) == 1:
+            N = _full_range(ex(g.iter))
+            k = excluded(g.ifs[0], g.target.id)
+            if k is None:
+                return None
+            if isinstance(k, str) and k.startswith('BAD:'):
+                return ('bad', k[4:])
+            if N is None:
+                it = ex(g.iter)
+                if isinstance(it, ast.Call) and norm(it.func) in ('range', 'np.arange') and len(it.args) >= 2:
+                    return ('bad', 'the range `%s` does not start at 0' % norm(it))
+                return None
+            return ('ok', N, k)
+        return None
+    if isinstance(e, ast.BinOp) and isinstance(e.op, ast.Sub):
+        N = _full_range(ex(e.left))
+        r = ex(e.right)
+        if isinstance(r, ast.Call) and norm(r.func) in ('set', 'frozenset') and len(r.args) == 1 and isinstance(r.args[0], (ast.List, ast.Tuple, ast.Set)):
+            r = r.args[0]
+        if N is not None and isinstance(r, (ast.Set, ast.List, ast.Tuple)) and len(r.elts) == 1 and isinstance(ex(e.left), ast.Call) \
+                and norm(ex(e.left).func) in ('set', 'frozenset'):
+            return ('ok', N, norm(r.elts[0]).replace(' ', ''))
+        return None
+    if isinstance(e, ast.Call) and isinstance(e.func, ast.Attribute) and e.func.attr == 'difference' and len(e.args) == 1:
+        N = _full_range(ex(e.func.value))
+        r = ex(e.args[0])
+        if N is not None and isinstance(r, (ast.Set, ast.List, ast.Tuple)) and len(r.elts) == 1:
+            return ('ok', N, norm(r.elts[0]).replace(' ', ''))
+        return None
+    m = _nonzero_mask(e)
+    base = None
+    if m is None and isinstance(e, ast.Subscript):
+        m, base = ex(e.slice), ex(e.value)
+    if m is not None:
+        m = ex(m)
+        if isinstance(m, ast.Compare) and len(m.ops) == 1:
+            for a, b in ((m.left, m.comparators[0]), (m.comparators[0], m.left)):
+                N = _full_range(ex(a))
+                if N is not None and (base is None or _full_range(base) == N):
+                    if isinstance(m.ops[0], ast.NotEq):
+                        return ('ok', N, norm(b).replace(' ', ''))
+                    return ('bad', 'the mask `%s` is not "different from"' % norm(m))
+        return None
+    if isinstance(e, ast.Call) and norm(e.func) in ('np.delete', 'numpy.delete') and len(e.args) == 2:
+        N = _full_range(ex(e.args[0]))
+        if N is not None:
+            return ('ok', N, norm(e.args[1]).replace(' ', ''))
+    if isinstance(e, ast.Call) and norm(e.func) in ('np.setdiff1d', 'numpy.setdiff1d') and len(e.args) == 2:
+        N = _full_range(ex(e.args[0]))
+        r = ex(e.args[1])
+        if N is not None and isinstance(r, (ast.List, ast.Tuple, ast.Set)) and len(r.elts) == 1:
+            return ('ok', N, norm(r.elts[0]).replace(' ', ''))
+    return None
